@@ -1376,6 +1376,36 @@ class Interp:
                 op = "Shl" if meth.endswith("shl") else "Shr"
                 cnt = self.binop(path, "BitAnd", b, INT(bits - 1, 32), 32)
                 return self._multi(path, frame, t, [(self.binop(path, op, a, cnt, bits, signed), path)], depth)
+            if meth in ("wrapping_div", "wrapping_rem"):
+                op = "Div" if meth.endswith("div") else "Rem"
+                path.events.append(("divop", op, a, b, bits, signed))
+                # the std implementation still panics on a zero divisor
+                z = self.binop(path, "Eq", b, INT(0, bits), 8, signed)
+                if self.decide(path, z) is None:
+                    path.events.append(("assert", "DivisionByZero" if op == "Div" else "RemainderByZero", None, {"a": b},
+                                        F.site_str(frame.body, t["sp"]), frame.body["path"], z, len(path.conds), ""))
+                return self._multi(path, frame, t, [(self.binop(path, op, a, b, bits, signed), path)], depth)
+            if meth in ("checked_add", "checked_sub", "checked_mul"):
+                op = {"checked_add": "Add", "checked_sub": "Sub", "checked_mul": "Mul"}[meth]
+                val = self.binop(path, op, a, b, bits, signed)
+                ovf = self.binop(path, op + "Ovf", a, b, 8, signed)
+                d = self.decide(path, ovf)
+                if d == 0:
+                    return self._multi(path, frame, t, [(SOME(val), path)], depth)
+                if d == 1:
+                    return self._multi(path, frame, t, [(NONE, path)], depth)
+                p2 = path.copy()
+                self.assume_cond(path, ovf, 0)
+                self.assume_cond(p2, ovf, 1)
+                path.events.append(("checked", op, a, b, "some"))
+                p2.events.append(("checked", op, a, b, "none"))
+                return self._multi(path, frame, t, [(SOME(val), path), (NONE, p2)], depth)
+            if meth in ("saturating_add", "saturating_sub"):
+                op = "Add" if meth.endswith("add") else "Sub"
+                return self._multi(path, frame, t, [(("ret", meth, (a, b), 0), path)], depth)
+            if meth in ("max", "min"):
+                r = self.minmax(path, meth, a, b, bits, signed)
+                return self._multi(path, frame, t, [(r, path)], depth)
             if meth in ("checked_shl", "checked_shr"):
                 op = "Shl" if meth.endswith("shl") else "Shr"
                 lo, hi = bv_range(bitvec(b, path))
@@ -1391,11 +1421,11 @@ class Interp:
                 return self._multi(path, frame, t, [(SOME(val), path), (NONE, p2)], depth)
             if meth == "wrapping_neg":
                 return self._multi(path, frame, t, [(self.binop(path, "Sub", INT(0, bits), a, bits, signed), path)], depth)
-        if name in ("std::cmp::min", "core::cmp::min", "std::cmp::Ord::min"):
-            a, b = args
-            if is_int(a) and is_int(b):
-                return self._multi(path, frame, t, [(a if a[1] <= b[1] else b, path)], depth)
-            return self._multi(path, frame, t, [(("ret", "min", (a, b), 0), path)], depth)
+        if name in ("std::cmp::min", "core::cmp::min", "std::cmp::Ord::min", "std::cmp::max", "core::cmp::max",
+                    "std::cmp::Ord::max") or name.endswith((" as std::cmp::Ord>::min", " as std::cmp::Ord>::max")):
+            a, b = args[0], args[1]
+            meth = "min" if name.endswith("min") else "max"
+            return self._multi(path, frame, t, [(self.minmax(path, meth, a, b, width_of(a), False), path)], depth)
         if name.endswith("::len") and len(args) == 1 and ("Vec" in name or "slice" in name or "<impl [T]>" in name):
             v = args[0]
             if v[0] == "ref":
@@ -1460,6 +1490,49 @@ class Interp:
                 return self._multi(path, frame, t, outs, depth)
             if meth in ("cloned", "copied", "as_ref", "as_mut"):
                 return self._multi(path, frame, t, [(v, path)], depth)
+            if meth == "map" and len(args) == 2:
+                def gen_map():
+                    for vi, payload, p in self.split_result(path, v, OPTION if is_opt else RESULT):
+                        if vi != good:
+                            yield from self.cont(frame, t, p, v if v[0] == "agg" else (NONE if is_opt else ERR(payload)), depth)
+                            continue
+                        clos = self._deref_all(p, args[1])
+                        cb = self.F.bodies.get(clos[1][8:]) if clos[0] == "agg" and clos[1].startswith("closure:") else None
+                        wrap = SOME if is_opt else OK
+                        if cb is None:
+                            yield from self.cont(frame, t, p, wrap(("ret", "map", (self.norm_arg(p, args[1]), payload), 0)), depth)
+                            continue
+                        tmp = ("L", ("map-env", frame.fid, t["sp"]), 0)
+                        p.store[tmp] = clos
+                        l1 = cb["locals"][1]
+                        envarg = ("ref", (tmp, ()), False) if isinstance(l1, list) and l1[0] == "ref" else clos
+                        for o in self.call_body(cb, [envarg, payload], p, frame, depth + 1):
+                            if o.kind == "return":
+                                yield from self.cont(frame, t, o.path, wrap(o.value), depth)
+                            else:
+                                yield o
+                return gen_map()
+            if meth == "map_or" and len(args) == 3:
+                def gen_map_or():
+                    for vi, payload, p in self.split_result(path, v, OPTION if is_opt else RESULT):
+                        if vi != good:
+                            yield from self.cont(frame, t, p, args[1], depth)
+                            continue
+                        clos = self._deref_all(p, args[2])
+                        cb = self.F.bodies.get(clos[1][8:]) if clos[0] == "agg" and clos[1].startswith("closure:") else None
+                        if cb is None:
+                            yield from self.cont(frame, t, p, ("ret", "map_or", (payload,), 0), depth)
+                            continue
+                        tmp = ("L", ("mapor-env", frame.fid, t["sp"]), 0)
+                        p.store[tmp] = clos
+                        l1 = cb["locals"][1]
+                        envarg = ("ref", (tmp, ()), False) if isinstance(l1, list) and l1[0] == "ref" else clos
+                        for o in self.call_body(cb, [envarg, payload], p, frame, depth + 1):
+                            if o.kind == "return":
+                                yield from self.cont(frame, t, o.path, o.value, depth)
+                            else:
+                                yield o
+                return gen_map_or()
         return None
 
     FN_TRAIT_CALLS = ("std::ops::Fn::call", "std::ops::FnMut::call_mut", "std::ops::FnOnce::call_once")
@@ -1503,6 +1576,16 @@ class Interp:
                 return self._inline(path, frame, t, cb, cargs, depth)
         path.events.append(("unknown_closure_call", env, F.site_str(frame.body, t["sp"])))
         return None
+
+    def minmax(self, path, meth, a, b, bits, signed):
+        if is_int(a) and is_int(b):
+            lo, hi = (a, b) if a[1] <= b[1] else (b, a)
+            return lo if meth == "min" else hi
+        le = self.decide(path, self.binop(path, "Le", a, b, 8, signed))
+        if le is not None:
+            lo, hi = (a, b) if le else (b, a)
+            return lo if meth == "min" else hi
+        return W(("ret", meth, (a, b), 0), bits)
 
     def _deref_all(self, path, v, n=4):
         while v[0] == "ref" and n > 0:
